@@ -8,10 +8,7 @@
 use std::mem::offset_of;
 use std::sync::Arc;
 
-use gmsol_model::{
-    pool::delta::BalanceChange, BaseMarket, BorrowingFeeMarket, LiquidityMarket, PerpMarket, PnlFactorKind,
-    PositionImpactMarket, SwapMarket,
-};
+use gmsol_model::{pool::delta::BalanceChange, LiquidityMarket, PerpMarket, PnlFactorKind};
 use gmsol_programs::gmsol_store::{
     accounts::{Market as SdkMarket, Store as SdkStore},
     types::{Addresses as SdkAddresses, Amounts as SdkAmounts, Factors as SdkFactors, MarketConfig as SdkCfg},
